@@ -389,9 +389,21 @@ func (r *runner) exec(op string) {
 			default:
 			}
 		}
-	case "openfail": // the next source Open fails
+	case "openfail": // openfail — the next Open of the primary source fails; openfail:<k> — of source k (2, 3, …)
 		w.mu.Lock()
-		w.openFail++
+		if k, err := strconv.Atoi(arg); err == nil && k >= 2 {
+			w.openFailAt[k]++
+		} else {
+			w.openFail++
+		}
+		w.mu.Unlock()
+	case "dlqopenfail": // the next Open of a DLQ destination plugin fails
+		w.mu.Lock()
+		w.dlqOpenFail++
+		w.mu.Unlock()
+	case "dstopenfail": // the next Open of the destination plugin fails
+		w.mu.Lock()
+		w.dstOpenFail++
 		w.mu.Unlock()
 	case "dtf": // dtf:T|F — the next destination Teardown fails
 		w.mu.Lock()
